@@ -76,7 +76,8 @@ Verdict(rec) ==
         \* ------------------------------------------------------------ C05
         V05 == IF ~IsExact(rec.cfg) THEN <<"skip", "not-exact">>
                ELSE IF ~Got THEN
-                    (IF rec.env = "nocplex" /\ IsSelector(rec.cfg) THEN <<"viol", "C05:selector-fails-without-cplex">>
+                    (IF rec.env \in {"nocplex", "brokencplex"} /\ IsSelector(rec.cfg)
+                     THEN <<"viol", "C05:selector-fails-without-cplex">>
                      ELSE <<"skip", rec.out>>)
                ELSE IF ~WF THEN <<"viol", "C05:malformed">>
                ELSE IF BigN THEN (IF \E k \in DOMAIN K : Sc(K[k]) > UpperB THEN <<"viol", "C05:not-optimal">>
